@@ -76,8 +76,9 @@ def generate(tier, seed, ctx):
         cases.append(('altered_message', sk.verify_key.encode(), bytes(m2), sig, 0))
         cases.append(('other_key', SigningKey(rb(32)).verify_key.encode(), msg, sig, 0))
         s2 = bytearray(sig)
-        s2[rng.randrange(64)] ^= 1 << rng.randrange(8)
-        cases.append(('altered_signature', sk.verify_key.encode(), msg, bytes(s2), 0))
+        if s2:          # (a wrong-length signature is itself reported through siglen)
+            s2[rng.randrange(len(s2))] ^= 1 << rng.randrange(8)
+            cases.append(('altered_signature', sk.verify_key.encode(), msg, bytes(s2), 0))
         for label, pub, m, s, genuine in cases:
             rec = {'op': 'sig', 'label': label, 'genuine': genuine, 'siglen': len(sig)}
             try:
